@@ -1398,6 +1398,42 @@ pub fn with_control_everywhere(cases: &[Value], control: &Value) -> Vec<Value> {
     out
 }
 
+/// The same histories with every commit made through an overlay: `chained == false` turns each
+/// `c` into "create overlay on the committed state, commit it"; `chained == true` first creates all
+/// overlays as one chain (each on top of the previous ones) and then commits them in order.
+pub fn via_overlays(cases: &[Value], chained: bool) -> Vec<Value> {
+    let mut out = vec![];
+    for c in cases {
+        let Some(ops) = c.get("ops").and_then(|o| o.as_array()) else { continue };
+        if ops.is_empty() || ops.iter().any(|o| o.get("c").is_none()) {
+            continue;
+        }
+        if chained && ops.len() < 2 {
+            continue;
+        }
+        let mut nops = vec![];
+        if chained {
+            for (i, o) in ops.iter().enumerate() {
+                let on: Vec<usize> = (0..i).rev().collect();
+                nops.push(json!({"ov": {"id": i, "on": on, "b": o["c"]}}));
+            }
+            for i in 0..ops.len() {
+                nops.push(json!({"ovc": i}));
+            }
+        } else {
+            for (i, o) in ops.iter().enumerate() {
+                nops.push(json!({"ov": {"id": i, "on": [], "b": o["c"]}}));
+                nops.push(json!({"ovc": i}));
+            }
+        }
+        let mut n = c.clone();
+        n["ops"] = Value::Array(nops);
+        n["via_overlays"] = json!(if chained { "chain" } else { "each" });
+        out.push(n);
+    }
+    out
+}
+
 /// Adds, for every history that starts from a non-empty seed state or reopens the store, a copy
 /// that performs no reads between its operations (`quiet`): the per-step audit warms the leaf and
 /// page caches, so only the quiet copy lets an operation meet the caches as a reopen left them.
